@@ -62,6 +62,7 @@ type Env struct {
 	groups map[Loc]*egState
 	groupWrites map[Loc][]map[Loc]bool
 	timeTexts []*Term
+	expectBlock bool
 	realFB    bool // execute the real filebuffer code (E-pages) instead of the E-flat intrinsics
 	served map[string]string
 	nrand  int
@@ -197,6 +198,9 @@ func (m *Machine) vrtEnvCall(name string, a []Value) (Value, bool) {
 		return c.Bool(ok), true
 	case "LogLen":
 		return c.IntI(SI64, int64(len(e.log))), true
+	case "ExpectBlock":
+		e.expectBlock = true
+		return nil, true
 	case "RealFileBuffer":
 		e.realFB = true
 		return nil, true
@@ -460,6 +464,10 @@ func (m *Machine) envIntrinsic(name string, fn *ssa.Function, args []Value) (Val
 				if o != fo && o.open && o.locked && o.f == fo.f {
 					if how&4 != 0 {
 						return m.newErr("flock: EWOULDBLOCK", nil), true
+					}
+					if e.expectBlock {
+						m.res.Reach["blocked"] = true
+						panic(pathEnd{"done", "blocks as expected: " + fo.path + " is held by another open descriptor"})
 					}
 					panic(pathEnd{"deadlock", "flock(LOCK_EX) would block forever: " + fo.path + " is held by another open descriptor"})
 				}
